@@ -238,6 +238,7 @@ func (s *SpokFile) run(stream iostream.IOStream, runner shell.Runner, force bool
 	}
 
 	verifhook.Point("run.cache.loaded", cachePath)
+	executed := false // Whether any task has run its commands so far
 	for _, taskToRun := range runOrder {
 		verifhook.Point("run.task.begin", taskToRun.Name)
 		// Gather up all the files to be hashed into a single slice
@@ -246,6 +247,16 @@ func (s *SpokFile) run(stream iostream.IOStream, runner shell.Runner, force bool
 		// First, any glob file dependencies need their expanded files retrieving from
 		// the s.Globs map of pattern -> slice
 		for _, pattern := range taskToRun.GlobDependencies {
+			if executed {
+				// The patterns were expanded when the spokfile was loaded, a task that has run since
+				// may have created or removed files this one matches (a generator it depends on), so
+				// what counts is what the pattern matches now that it is this task's turn
+				matches, err := expandGlob(s.Dir, pattern)
+				if err != nil {
+					return nil, err
+				}
+				s.Globs[pattern] = matches
+			}
 			globs := s.Globs[pattern]
 			toHash = append(toHash, globs...)
 			s.logger.Debug("Task %s glob dependency pattern %q expanded to %d files", taskToRun.Name, pattern, len(globs))
@@ -300,6 +311,7 @@ func (s *SpokFile) run(stream iostream.IOStream, runner shell.Runner, force bool
 				}
 			}
 			verifhook.Point("run.task.pre", taskToRun.Name)
+			executed = true
 			result, err = taskToRun.Run(runner, stream, s.Env())
 			verifhook.Point("run.task.post", taskToRun.Name, err == nil && result.Ok())
 			if err != nil {
